@@ -52,6 +52,48 @@ func runCLI(bin, dir string, stdin string, args ...string) cliRun {
 	return r
 }
 
+// runCLIChunked feeds stdin in several pieces with a pause between them (a producer that flushes as it goes)
+func runCLIChunked(bin, dir string, chunks []string, gap time.Duration, args ...string) cliRun {
+	cmd := exec.Command(bin, args...)
+	cmd.Dir = dir
+	cmd.Env = []string{"HOME=" + dir, "PATH=/usr/bin:/bin", "NO_COLOR=1"}
+	var so, se bytes.Buffer
+	cmd.Stdout, cmd.Stderr = &so, &se
+	w, err := cmd.StdinPipe()
+	if err != nil {
+		return cliRun{exit: -1}
+	}
+	if err := cmd.Start(); err != nil {
+		return cliRun{exit: -1}
+	}
+	go func() {
+		for i, ch := range chunks {
+			if i > 0 {
+				time.Sleep(gap)
+			}
+			_, _ = w.Write([]byte(ch))
+		}
+		_ = w.Close()
+	}()
+	done := make(chan error, 1)
+	go func() { done <- cmd.Wait() }()
+	select {
+	case err = <-done:
+	case <-time.After(30 * time.Second):
+		_ = cmd.Process.Kill()
+		return cliRun{exit: -9}
+	}
+	r := cliRun{stdout: so.String(), stderr: se.String()}
+	if err != nil {
+		if ee, ok := err.(*exec.ExitError); ok {
+			r.exit = ee.ExitCode()
+		} else {
+			r.exit = -1
+		}
+	}
+	return r
+}
+
 // libraryAccepts: the library's verdict on a file's content, as the CLI documents it (empty input is valid)
 func libraryAccepts(content string, strict bool) bool {
 	if len(content) == 0 {
@@ -132,6 +174,12 @@ func runC19(c *runCtx) {
 		}
 		if format != "text" {
 			args = append(args, "--output-format", format)
+		}
+		// flags that must change neither the verdict nor the shape of a machine-readable report
+		for _, extra := range []string{"--stats", "-v"} {
+			if c.rng.Chance(25) {
+				args = append(args, extra)
+			}
 		}
 		args = append(args, names...)
 		out := runCLI(bin, dir, "", args...)
@@ -225,6 +273,32 @@ func runC19(c *runCtx) {
 			res.fail("validate-exit-stdin", fmt.Sprintf("validate - (stdin) exits %d, library verdict %d", o.exit, want), map[string]any{"stdin": ct}, truncate(o.stderr, 200))
 		}
 		res.count("stdin|"+ct, true)
+	}
+	// stdin that arrives in pieces is the same input: exit status and standard output equal those of the one-piece run
+	{
+		var valid []string
+		for _, ct := range pool {
+			if strings.TrimSpace(ct) != "" && libraryAccepts(ct, false) && !strings.Contains(ct, "--") {
+				valid = append(valid, ct)
+			}
+		}
+		for r := 0; r < c.n(12, 200) && len(valid) > 0; r++ {
+			first := strings.TrimRight(valid[c.rng.Intn(len(valid))], "; \n") + ";\n"
+			second := pool[c.rng.Intn(len(pool))]
+			if strings.TrimSpace(second) == "" {
+				second = "SELECT FROM"
+			}
+			for _, cmdl := range [][]string{{"validate", "-"}, {"validate", "--output-format", "json", "-"}, {"lint", "--fail-on-warn", "-"}, {"format", "-"}, {"parse", "-"}} {
+				whole := runCLI(bin, dir, first+second, cmdl...)
+				pieces := runCLIChunked(bin, dir, []string{first, second}, 120*time.Millisecond, cmdl...)
+				res.count("chunked|"+strings.Join(cmdl, " ")+"|"+first+second, true)
+				// (reports carry timings and unordered maps: only the formatter's output is compared byte for byte)
+				if whole.exit != pieces.exit || (cmdl[0] == "format" && whole.stdout != pieces.stdout) {
+					res.fail("stdin-in-pieces:"+cmdl[0], fmt.Sprintf("%s reads stdin that arrives in two pieces differently from the same text in one piece (exit %d vs %d)", strings.Join(cmdl, " "), pieces.exit, whole.exit),
+						map[string]any{"command": cmdl, "first_piece": first, "second_piece": second}, map[string]any{"stdout_pieces": truncate(pieces.stdout, 200), "stdout_whole": truncate(whole.stdout, 200)})
+				}
+			}
+		}
 	}
 	// A'. parse and analyze: the exit status is the library's verdict under every output format and input route
 	for r := 0; r < c.n(40, 600); r++ {
